@@ -46,10 +46,15 @@ impl PixelDataReader for JpegAdapter {
         // `stride` it the total number of bytes for each sample plane
         let stride: usize = bytes_per_sample as usize * cols as usize * rows as usize;
         let base_offset = dst.len();
-        dst.resize(
-            base_offset + (samples_per_pixel as usize * stride) * nr_frames,
-            0,
-        );
+        // (the image attributes are not to be trusted:
+        // fail instead of aborting when they ask for more memory than there is)
+        let additional = (samples_per_pixel as usize * stride)
+            .checked_mul(nr_frames)
+            .whatever_context("Image attributes describe more pixel data than can be addressed")?;
+        dst.try_reserve_exact(additional)
+            .map_err(|e| Box::new(e) as Box<_>)
+            .whatever_context("Could not allocate the buffer for the decoded pixel data")?;
+        dst.resize(base_offset + additional, 0);
 
         let raw = src
             .raw_pixel_data()
@@ -171,7 +176,13 @@ impl PixelDataReader for JpegAdapter {
         // `stride` it the total number of bytes for each sample plane
         let stride: usize = bytes_per_sample as usize * cols as usize * rows as usize;
         let base_offset = dst.len();
-        dst.resize(base_offset + (samples_per_pixel as usize * stride), 0);
+        // (the image attributes are not to be trusted:
+        // fail instead of aborting when they ask for more memory than there is)
+        let additional = samples_per_pixel as usize * stride;
+        dst.try_reserve_exact(additional)
+            .map_err(|e| Box::new(e) as Box<_>)
+            .whatever_context("Could not allocate the buffer for the decoded pixel data")?;
+        dst.resize(base_offset + additional, 0);
 
         let raw = src
             .raw_pixel_data()
